@@ -138,6 +138,25 @@ def oracle_case(case: dict) -> Failure | None:  # noqa: C901
             for op in (case["plan"][t] if t < len(case["plan"]) else []):
                 if op[0] == "tag":
                     run.set_tag(op[1], op[2])
+                elif op[0] in ("cancelall", "cancelitems"):
+                    # exactly what the frontend can do: a cancel request for a run-log item id.  Tried on every item
+                    # (`cancelall`) or every item of the j-th Watch/Alarm (`cancelitems`), offered as cancellable or not.
+                    try:
+                        items = list(run.engine.tracking.get_runlog().items)
+                    except Exception:
+                        items = []
+                    only = conds[op[1] % len(conds)]["id"] if op[0] == "cancelitems" else None
+                    for it in reversed(items):
+                        rec = run.engine.tracking.get_record_by_instance_id(it.id)
+                        nid = rec.node_id if rec is not None else None
+                        if only is not None and nid != only:
+                            continue
+                        r = run.cancel(it.id)
+                        STATS["runlog_item_cancel_" + ("accepted" if r == "ok" else "rejected")] += 1
+                        if r == "ok" and nid in st:
+                            accepted_cancel.append(nid)
+                            if not it.cancellable:
+                                STATS["accepted_cancel_on_item_not_offered"] += 1
                 else:
                     w = conds[op[1] % len(conds)]
                     rec = record_of(w["id"])
@@ -174,9 +193,10 @@ def oracle_case(case: dict) -> Failure | None:  # noqa: C901
                     s["true_since"] = True
                 if n["forced"]:
                     s["forced_seen"] = True
-                if wid in accepted_cancel:
-                    s["cancelled_at"] = t
-                if s["cancelled_at"] is not None and not n["cancelled"] and not pn["cancelled"]:
+                fixed = wid not in resettable and not has_calls   # no reset from outside can clear this node's flags
+                if wid in accepted_cancel and s["cancelled_at"] is None:
+                    s["cancelled_at"] = t             # accepted before tick t ran
+                if not fixed and s["cancelled_at"] is not None and not n["cancelled"] and not pn["cancelled"]:
                     s["cancelled_at"] = None      # the flag was reset (node inside an Alarm / Macro)
                 # -- (a) a body starts only after a tick in which the condition was true, or after force
                 if started_now:
@@ -189,10 +209,13 @@ def oracle_case(case: dict) -> Failure | None:  # noqa: C901
                                        f"tick {t}: {w['name']}: {w['arg']} (line {w['line']}) started its body but its "
                                        f"condition was not true on any tick since it was armed, and it was not forced")
                     # -- (c) not after it was cancelled
-                    if s["cancelled_at"] is not None and s["cancelled_at"] < t and pn["cancelled"]:
-                        return Failure("body-started-after-cancel", case,
-                                       f"tick {t}: {w['name']}: {w['arg']} (line {w['line']}) started its body although it "
-                                       f"was cancelled before tick {s['cancelled_at']}")
+                    # An accepted cancel (the request returned without error; the run log shows Cancelled) is final for a
+                    # node that nothing resets: no body start in the tick after the request or in any later one.
+                    if s["cancelled_at"] is not None and (
+                            (fixed and s["cancelled_at"] <= t) or (s["cancelled_at"] < t and pn["cancelled"])):
+                        return Failure("body-started-after-accepted-cancel", case,
+                                       f"tick {t}: {w['name']}: {w['arg']} (line {w['line']}) started its body although a "
+                                       f"cancel for it was accepted before tick {s['cancelled_at']}")
                     # -- (b) Watch at most once; Alarm once per activation
                     if w["cls"] == "WatchNode" and wid not in resettable and not has_calls and s["starts"] > 1:
                         return Failure("watch-body-started-twice", case,
@@ -235,11 +258,11 @@ def oracle_case(case: dict) -> Failure | None:  # noqa: C901
                     effect = d["cls"] == "MarkNode" and d["arg"] in new_marks
                     if not (fresh or effect):
                         continue
-                    if s["cancelled_at"] is not None and s["cancelled_at"] < t and pn["cancelled"] and n["cancelled"] \
-                            and wid not in resettable and not has_calls and not pn["activated"]:
-                        return Failure("body-instruction-ran-after-cancel", case,
-                                       f"tick {t}: line {d['line']} ({d['name']} {d['arg']}) in the body of the cancelled "
-                                       f"{w['name']}: {w['arg']} started")
+                    if s["cancelled_at"] is not None and s["cancelled_at"] <= t and fixed:
+                        return Failure("body-instruction-started-after-accepted-cancel", case,
+                                       f"tick {t}: line {d['line']} ({d['name']} {d['arg']}) in the body of "
+                                       f"{w['name']}: {w['arg']} started although a cancel for the {w['name']} was accepted "
+                                       f"before tick {s['cancelled_at']}")
                     for b in blocks_above[wid]:
                         te = block_ended_at.get(b["id"])
                         if te is not None and te < t and b["id"] not in resettable and not has_calls \
@@ -283,7 +306,9 @@ def gen_oracle_cases(ctx: Check, n: int) -> list[dict]:
             if rng.random() < 0.4:
                 ops.append(["tag", f"T{rng.randrange(3)}", rng.randrange(4)])
             x = rng.random()
-            if x < 0.10:
+            if x < 0.03:
+                ops.append(["cancelitems", rng.randrange(8)])
+            elif x < 0.10:
                 ops.append(["cancel", rng.randrange(8)])
             elif x < 0.17:
                 ops.append(["force", rng.randrange(8)])
@@ -319,6 +344,18 @@ def hand_cases() -> list[dict]:
                 "min_starts": 4})
     out.append({"pcode": "Base: s\nBlock: B\n    Alarm: T0 > 0\n        Mark: a\n    Wait: 10s\nMark: c\n", "ticks": 40,
                 "plan": [[["tag", "T0", 1]]], "min_starts": 4})
+    # a cancel request for every run-log item id at every tick from before registration to after the body completed
+    for body_ in ("Watch: T0 > 0\n    Mark: a\n    Wait: 0.5s\n    Mark: b\nMark: c\n",
+                  "Alarm: T0 > 0\n    Mark: a\n    Wait: 0.5s\n    Mark: b\nMark: c\n",
+                  "Block: B\n    Watch: T0 > 0\n        Mark: a\n        Mark: b\n    Wait: 3s\n    End block\nMark: c\n",
+                  "1.0 Watch: T0 > 0\n    Mark: a\n    Mark: b\nMark: c\n",
+                  "Alarm: T0 > 0\n    Watch: T1 > 0\n        Mark: a\n    Mark: b\n"):
+        for t_true in (0, 7):
+            for t0 in range(1, 32):
+                plan = [[] for _ in range(48)]
+                plan[t_true] = [["tag", "T0", 1], ["tag", "T1", 1]]
+                plan[t0] = plan[t0] + [["cancelall"]]
+                out.append({"pcode": "Base: s\n" + body_, "ticks": 48, "plan": plan})
     # cancel / force a waiting Watch and Alarm at every offset, condition true afterwards
     for pcode in ("Watch: T0 > 0\n    Mark: a\n    Mark: b\nMark: c\n", "Alarm: T0 > 0\n    Mark: a\nMark: c\n",
                   "1.0 Watch: T0 > 0\n    Mark: a\nMark: c\n"):
